@@ -464,7 +464,7 @@ def render(cat, charset, rng, sp):
 
 # ---------------------------------------------------------------- catalog generator
 LETTERS = 'abcXYZ019 fF'
-NONASCII = 'éßñЖя中日本語ก€·«»ąęŁ\xa0\xad٣３๓'     # the last three are decimal digits outside ASCII (what follows a short octal escape must not be read as part of it)
+NONASCII = 'éßñЖя中日本語ก€·«»ąęŁ\xa0\xad٣３๓ソ表功'     # ٣３๓ are decimal digits outside ASCII (what follows a short octal escape must not be read as part of it); ソ表功 have 0x5C as their trail byte in SHIFT_JIS / CP932 / BIG5 (the escaped byte pair is then \\x83 + \\\\)
 # character pairs whose encoding in a legacy 8-bit charset is also a valid UTF-8 sequence
 # (ISO-8859-2 / CP1250 D3 A3, D3 B3, C5 B1...; KOI8-R D0 A3, D1 B3; CP1251 D0 B3 ...): spelled as escapes they tell
 # "decoded with the charset of the file" from "decoded with some other charset first"
@@ -556,6 +556,9 @@ def charsets(python=True):
     E = _impl['encodings']
     out = []
     for name in E.get_portable_encodings(python=python):
+        if name.upper() in OWN_LETTERS:
+            out.append(name)      # the codecs the tool supplies are in scope by the property's own list, whatever the tool's codec answers today
+            continue
         try:
             if REPERTOIRE.decode(name) == REPERTOIRE.decode('ascii'):
                 out.append(name)
@@ -573,11 +576,14 @@ def text_of_catalog(cat):
 
 
 def stateless_ok(text, cs):
-    """the charset encodes the text, character by character, and decodes it back (the codec hypothesis of the theorems)"""
+    """the charset encodes the text, character by character, and decodes it back (the codec hypothesis of the theorems);
+    for the tool's own codecs the decode direction is what is under test, so only the encode side decides the scope"""
     try:
         b = text.encode(cs)
-        if b.decode(cs) != text:
+        if cs.upper() not in OWN_LETTERS and b.decode(cs) != text:
             return False
+        if cs.upper() in OWN_LETTERS:
+            return b == b''.join(ch.encode(cs) for ch in text)
         return b == b''.join(ch.encode(cs) for ch in text) and all(ch.encode(cs).decode(cs) == ch for ch in set(text))
     except (UnicodeError, LookupError):
         return False
